@@ -23,6 +23,8 @@ func init() {
 		{Name: "constructor-wrong-nibble", Rule: "R16.2", Where: "PubComp", Edits: []Edit{{"pubcomp.go", "return &PubComp{fixed: bits(PUBCOMP)}", "return &PubComp{fixed: bits(PUBREC)}"}}},
 		{Name: "retain-reads-dup-bit", Rule: "R16.3", Where: "Retain", Edits: []Edit{{"publish.go", "func (p *Publish) Retain() bool     { return p.fixed.Has(RETAIN) }", "func (p *Publish) Retain() bool     { return p.fixed.Has(DUP) }"}}},
 		{Name: "qos-order-changed", Rule: "R16.3", Where: "QoS", Edits: []Edit{{"publish.go", "\tcase p.fixed.Has(QoS3):\n\t\treturn 3 // malformed\n\tcase p.fixed.Has(QoS1):\n\t\treturn 1", "\tcase p.fixed.Has(QoS1):\n\t\treturn 1\n\tcase p.fixed.Has(QoS3):\n\t\treturn 3 // malformed"}}},
+		{Name: "undefined-keeps-the-first-256-bytes-only", Rule: "R16.4", Where: "Undefined", Edits: []Edit{{"undefined.go", "\tp.data = make([]byte, len(data))\n\tcopy(p.data, data)\n", "\tp.data = make([]byte, len(data))\n\tcopy(p.data, data)\n\tif len(p.data) > 256 {\n\t\tp.data = p.data[:256]\n\t}\n"}}},
+		{Name: "undefined-copies-before-it-allocates", Rule: "R16.4", Where: "Undefined", Edits: []Edit{{"undefined.go", "\tp.data = make([]byte, len(data))\n\tcopy(p.data, data)\n", "\tcopy(p.data, data)\n\tp.data = make([]byte, len(data))\n"}}},
 		{Name: "undefined-drops-data", Rule: "R16.4", Where: "Undefined", Edits: []Edit{{"undefined.go", "\tp.data = make([]byte, len(data))\n\tcopy(p.data, data)\n", "\tp.data = make([]byte, len(data))\n"}}},
 		{Name: "fill-emits-flags-first", Rule: "R16.1", Where: "0x20", Edits: []Edit{{"connack.go", "\ti += p.fixed.fill(b, i)                          // firstByte header", "\ti += p.flags.fill(b, i)                          // firstByte header"}}},
 		{Name: "decoder-resets-packet-to-constructor-defaults", Rule: "R16.6", Where: "(*Subscribe).UnmarshalBinary#keeps-first-byte", Edits: []Edit{{"subscribe.go", "func (p *Subscribe) UnmarshalBinary(data []byte) error {\n", "func (p *Subscribe) UnmarshalBinary(data []byte) error {\n\t*p = *NewSubscribe()\n"}}},
@@ -444,13 +446,26 @@ func checkC16(p *Prog, c *Check) {
 				}
 			}
 			stored, copied := false, false
+			other := ""
+			var storeIns, copyIns ssa.Instruction
 			for _, b := range um.Blocks {
 				for _, ins := range b.Instrs {
 					switch x := ins.(type) {
 					case *ssa.Store:
 						if fa, ok := x.Addr.(*ssa.FieldAddr); ok && fa.Field == df && fa.X == ssa.Value(um.Params[0]) {
+							good := false
 							if ms, ok := x.Val.(*ssa.MakeSlice); ok && data != nil && upr.lin(ms.Len).equal(upr.lenOf(data)) {
 								stored = true
+								good = true
+								storeIns = x
+							}
+							if ap, ok := x.Val.(*ssa.Call); ok {
+								if bi, ok := ap.Call.Value.(*ssa.Builtin); ok && bi.Name() == "append" && len(ap.Call.Args) == 2 && ap.Call.Args[1] == ssa.Value(data) && upr.lenOf(ap.Call.Args[0]).isConst() {
+									good = true
+								}
+							}
+							if !good && other == "" {
+								other = "the field Data() returns is also stored with " + describeVal(x.Val) + " at " + posOf(p, x) + ": what Data() returns is then not the frame's body as it arrived (cut, replaced or re-sliced)"
 							}
 							if ap, ok := x.Val.(*ssa.Call); ok {
 								if bi, ok := ap.Call.Value.(*ssa.Builtin); ok && bi.Name() == "append" && len(ap.Call.Args) == 2 && ap.Call.Args[1] == ssa.Value(data) {
@@ -466,6 +481,7 @@ func checkC16(p *Prog, c *Check) {
 							if ld, ok := dst.(*ssa.UnOp); ok {
 								if fa, ok := ld.X.(*ssa.FieldAddr); ok && fa.Field == df {
 									copied = true
+									copyIns = x
 								}
 							}
 							if _, ok := dst.(*ssa.MakeSlice); ok {
@@ -475,7 +491,37 @@ func checkC16(p *Prog, c *Check) {
 					}
 				}
 			}
-			if stored && copied {
+			if other == "" && storeIns != nil && copyIns != nil {
+				// the copy fills the slice that was just stored, not an earlier one
+				sb, cb := storeIns.Block(), copyIns.Block()
+				if !(sb.Dominates(cb) && (sb != cb || instrIndex(storeIns) < instrIndex(copyIns))) {
+					other = "the copy at " + posOf(p, copyIns) + " is made before the fresh slice is stored at " + posOf(p, storeIns) + ": it fills whatever the field held before"
+				}
+			}
+			// nothing else on the decoder's call tree stores to that field
+			if other == "" {
+				for fn := range p.Reach([]*ssa.Function{um}) {
+					if fn == um || fn.Blocks == nil {
+						continue
+					}
+					for _, b := range fn.Blocks {
+						for _, ins := range b.Instrs {
+							if st, ok := ins.(*ssa.Store); ok {
+								if fa, ok := st.Addr.(*ssa.FieldAddr); ok && fa.Field == df {
+									if pt, ok := fa.X.Type().Underlying().(*types.Pointer); ok {
+										if nt := namedOf(pt.Elem()); nt != nil && nt.Obj().Name() == "Undefined" && other == "" {
+											other = "the field Data() returns is also stored in " + qname(fn) + " at " + posOf(p, st)
+										}
+									}
+								}
+							}
+						}
+					}
+				}
+			}
+			if other != "" {
+				c.Bad("R16.4", cons, p.Pos(um.Pos()), other)
+			} else if stored && copied {
 				c.OK("R16.4", cons, p.Pos(um.Pos()), "a fresh slice of len(data) is stored where Data() reads and filled by copy from the argument")
 			} else {
 				c.Bad("R16.4", cons, p.Pos(um.Pos()), "the frame's bytes do not end up (copied) in the field Data() returns")
